@@ -53,76 +53,182 @@ def obligations_for(prop, con, ob_name, kind):
 # --------------------------------------------------------------------------
 # worker
 # --------------------------------------------------------------------------
+_G = {}   # per-process globals for forked discharge workers
+
+
+def _generate(qual):
+    """-> (obligations, con, src, res) for a function or lemma; never raises (returns error)."""
+    load_contracts()
+    from pyvc.source import SourceIndex
+    from pyvc.contracts import REGISTRY
+    from pyvc.models import MODELS
+    from pyvc.vc import verify_function, verify_lemma
+    from contracts.lib import AXIOMS
+    from pyvc import findings
+    findings.install_unassumed()
+    axioms = [f for _, f, _ in AXIOMS]
+    if qual.startswith("lemma:"):
+        obs = verify_lemma(qual[6:], axioms)
+        return obs, None, None, dict(obligations=obs, paths=1, error=None, meta={})
+    src = SourceIndex(REPO).load_tree()
+    con = REGISTRY[qual]
+    res = verify_function(src, con, MODELS, axioms=axioms)
+    obs = res["obligations"]
+    seen = {}
+    for ob in obs:
+        seen[ob.name] = seen.get(ob.name, 0) + 1
+        if seen[ob.name] > 1:
+            ob.name = f"{ob.name}#{seen[ob.name]}"
+    return obs, con, src, res
+
+
+def _to_smt2(ob):
+    import z3
+    s = z3.Solver()
+    for h in ob.hyps:
+        s.add(h)
+    s.add(z3.Not(ob.goal))
+    return s.to_smt2()
+
+
+def _child_init():
+    load_contracts()
+    from pyvc import findings
+    findings.install_unassumed()
+
+
+def _discharge_smt2(job):
+    """runs in a fresh (spawned) process: parse the obligation back from SMT-LIB and discharge it"""
+    i, name, kind, smt2, hyp_names, prop, timeout_ms, tier, qual = job
+    import z3
+    from pyvc.vc import discharge
+    from pyvc.interp import Obligation
+    from pyvc import findings
+    from pyvc.contracts import REGISTRY
+    try:
+        if not _G.get("init"):
+            _child_init()
+            _G["init"] = True
+        fs = list(z3.parse_smt2_string(smt2))
+        hyps, neg = fs[:-1], fs[-1]
+        goal = neg.children()[0] if z3.is_not(neg) else z3.Not(neg)
+        names = hyp_names if len(hyp_names) == len(hyps) else [None] * len(hyps)
+        ob = Obligation(name, hyps, goal, kind, {"hyp_names": names})
+        con = REGISTRY.get(qual)
+        d = discharge(ob, timeout_ms=timeout_ms)
+        rec = dict(name=name, kind=kind, verdict=d["verdict"], time_s=d["time_s"], tried=d.get("tried"), idx=i)
+        if d["verdict"] != "unsat":
+            rec["reason"] = d.get("reason", "")
+            rec["goal"] = str(goal)[:1500]
+            if d["verdict"] == "sat":
+                rec["model"] = findings.extract_model(d["model_obj"], ob, con)
+            kf = findings.match(prop, name)
+            if kf is not None:
+                rec["known_finding"] = kf["id"]
+                rec["outside_class"] = findings.check_outside_class(kf, ob, con, timeout_ms)
+        if tier == "thorough" and d["verdict"] == "unsat" and i % 7 == 0:
+            rec["cvc5"] = cross_check(ob, d)
+        if d["verdict"] == "unsat" and (i % 10 == 0 or tier == "thorough"):
+            s = z3.Solver()
+            s.set("timeout", 1500)
+            for h in hyps:
+                s.add(h)
+            rec["hyps_sat"] = str(s.check())
+        if i < 3 or d["verdict"] != "unsat":
+            rec["smt_head"] = str(goal)[:300]
+        return rec
+    except Exception as ex:
+        import traceback
+        return dict(name=name, kind=kind, verdict="error", time_s=0, error=repr(ex) + traceback.format_exc()[-800:], idx=i)
+
+
+def _discharge_one(i):
+    from pyvc.vc import discharge
+    from pyvc import findings
+    ob, con, prop, timeout_ms, tier = _G["obs"][i], _G["con"], _G["prop"], _G["timeout_ms"], _G["tier"]
+    try:
+        d = discharge(ob, timeout_ms=timeout_ms)
+        rec = dict(name=ob.name, kind=ob.kind, verdict=d["verdict"], time_s=d["time_s"], tried=d.get("tried"), idx=i)
+        if d["verdict"] != "unsat":
+            rec["reason"] = d.get("reason", "")
+            rec["goal"] = str(ob.goal)[:1500]
+            if d["verdict"] == "sat":
+                rec["model"] = findings.extract_model(d["model_obj"], ob, con)
+            kf = findings.match(prop, ob.name)
+            if kf is not None:
+                rec["known_finding"] = kf["id"]
+                rec["outside_class"] = findings.check_outside_class(kf, ob, con, timeout_ms)
+        if tier == "thorough" and d["verdict"] == "unsat" and i % 7 == 0:
+            rec["cvc5"] = cross_check(ob, d)
+        if d["verdict"] == "unsat" and (i % 10 == 0 or tier == "thorough"):
+            import z3 as _z
+            s = _z.Solver()
+            s.set("timeout", 1500)
+            for h in ob.hyps:
+                s.add(h)
+            rec["hyps_sat"] = str(s.check())
+        if i < 3 or d["verdict"] != "unsat":
+            rec["smt_head"] = str(ob.goal)[:300]
+        return rec
+    except Exception as ex:
+        import traceback
+        return dict(name=ob.name, kind=ob.kind, verdict="error", time_s=0, error=repr(ex) + traceback.format_exc()[-800:], idx=i)
+
+
+def funcworker(qual, prop, tier, jobs, gen_only=None):
+    """Generate the VCs of one function once.  gen_only=<path>: write the SMT-LIB jobs there (phase 1 of a property run);
+    otherwise discharge them here in `jobs` spawned workers and print one JSON line (developer runner)."""
+    import pickle
+    t0 = time.time()
+    timeout_ms = 10000 if tier == "quick" else 30000
+    try:
+        obs, con, src, res = _generate(qual)
+    except Exception as ex:
+        import traceback
+        r = dict(qual=qual, error="CHECKER-ERROR " + repr(ex) + "\n" + traceback.format_exc()[-1500:], results=[], paths=0, checker_error=True, jobs=[])
+        if gen_only:
+            pickle.dump(r, open(gen_only, "wb"))
+        else:
+            print(json.dumps(r))
+        return
+    if res["error"]:
+        r = dict(qual=qual, error=res["error"], results=[], paths=0, gen_s=round(time.time() - t0, 2), jobs=[])
+        if gen_only:
+            pickle.dump(r, open(gen_only, "wb"))
+        else:
+            print(json.dumps(r))
+        return
+    gen_s = time.time() - t0
+    idxs = [i for i, ob in enumerate(obs) if con is None or prop == "DEV" or obligations_for(prop, con, ob.name, ob.kind)]
+    qn = con.qual if con else ""
+    fn_meta = {}
+    if con is not None:
+        fd = src.find(con.file, con.qual)
+        fn_meta = dict(file=con.file, qual=con.qual, sha=src.src_hash(con.file, fd), paths=res["paths"], n_all=len(obs))
+    jobs_l = [(i, obs[i].name, obs[i].kind, _to_smt2(obs[i]), obs[i].meta.get("hyp_names") or [], prop, timeout_ms, tier, qn) for i in idxs]
+    if gen_only:
+        pickle.dump(dict(qual=qual, error=None, paths=res["paths"], gen_s=round(gen_s, 2), fn=fn_meta, jobs=jobs_l), open(gen_only, "wb"))
+        return
+    from concurrent.futures import ProcessPoolExecutor
+    with ProcessPoolExecutor(max_workers=max(1, jobs), mp_context=mp.get_context("spawn")) as ex:
+        out = list(ex.map(_discharge_smt2, jobs_l, chunksize=max(1, len(jobs_l) // (max(1, jobs) * 6))))
+    errs = [o for o in out if o["verdict"] == "error"]
+    print(json.dumps(dict(qual=qual, error=("CHECKER-ERROR " + errs[0]["error"]) if errs else None, results=[o for o in out if o["verdict"] != "error"],
+                          paths=res["paths"], gen_s=round(gen_s, 2), fn=fn_meta, wall_s=round(time.time() - t0, 2), checker_error=bool(errs)), default=str))
+
+
 def _work(task):
+    """(kept for the developer runner) generate + discharge one shard in this process"""
     qual, shard, nshards, prop, timeout_ms, tier = task
     t0 = time.time()
     try:
-        import z3
-        load_contracts()
-        from pyvc.source import SourceIndex
-        from pyvc.contracts import REGISTRY, LEMMAS
-        from pyvc.models import MODELS
-        from pyvc.vc import verify_function, verify_lemma, discharge
-        from contracts.lib import AXIOMS
-        from pyvc import findings
-        findings.install_unassumed()
-        axioms = [f for _, f, _ in AXIOMS]
-        if qual.startswith("lemma:"):
-            obs = verify_lemma(qual[6:], axioms)
-            res = dict(obligations=obs, paths=1, error=None, meta={})
-            con = None
-            src = None
-        else:
-            src = SourceIndex(REPO).load_tree()
-            con = REGISTRY[qual]
-            res = verify_function(src, con, MODELS, axioms=axioms)
+        obs, con, src, res = _generate(qual)
         if res["error"]:
             return dict(qual=qual, shard=shard, error=res["error"], results=[], paths=0, gen_s=time.time() - t0)
-        gen_s = time.time() - t0
-        # unique names
-        seen = {}
-        for ob in res["obligations"]:
-            seen[ob.name] = seen.get(ob.name, 0) + 1
-            if seen[ob.name] > 1:
-                ob.name = f"{ob.name}#{seen[ob.name]}"
-        out = []
-        for i, ob in enumerate(res["obligations"]):
-            if i % nshards != shard:
-                continue
-            if con is not None and not obligations_for(prop, con, ob.name, ob.kind):
-                continue
-            d = discharge(ob, timeout_ms=timeout_ms)
-            rec = dict(name=ob.name, kind=ob.kind, verdict=d["verdict"], time_s=d["time_s"], tried=d.get("tried"))
-            if d["verdict"] != "unsat":
-                rec["reason"] = d.get("reason", "")
-                rec["goal"] = str(ob.goal)[:1500]
-                if d["verdict"] == "sat":
-                    rec["model"] = findings.extract_model(d["model_obj"], ob, con)
-                # known finding: re-pose outside the witness class
-                kf = findings.match(prop, ob.name)
-                if kf is not None:
-                    rec["known_finding"] = kf["id"]
-                    rec["outside_class"] = findings.check_outside_class(kf, ob, con, timeout_ms)
-            if tier == "thorough" and d["verdict"] == "unsat" and i % 7 == 0:
-                rec["cvc5"] = cross_check(ob, d)
-            if d["verdict"] == "unsat" and (i % 10 == 0 or tier == "thorough"):
-                # vacuity: hypotheses must be satisfiable (unknown accepted)
-                import z3 as _z
-                s = _z.Solver()
-                s.set("timeout", 1500)
-                for h in ob.hyps:
-                    s.add(h)
-                rec["hyps_sat"] = str(s.check())
-            if len(out) < 3 or d["verdict"] != "unsat":
-                rec["smt_head"] = str(ob.goal)[:300]
-            out.append(rec)
-        fn_meta = {}
-        if con is not None and shard == 0:
-            fd = src.find(con.file, con.qual)
-            fn_meta = dict(file=con.file, qual=con.qual, sha=src.src_hash(con.file, fd), paths=res["paths"], n_all=len(res["obligations"]))
-        return dict(qual=qual, shard=shard, error=None, results=out, paths=res["paths"], gen_s=round(gen_s, 2), fn=fn_meta,
-                    wall_s=round(time.time() - t0, 2))
-    except Exception as ex:  # checker error, never a verdict
+        _G.update(obs=obs, con=con, prop=prop, timeout_ms=timeout_ms, tier=tier)
+        out = [_discharge_one(i) for i in range(len(obs)) if i % nshards == shard and (con is None or prop == "DEV" or obligations_for(prop, con, obs[i].name, obs[i].kind))]
+        return dict(qual=qual, shard=shard, error=None, results=out, paths=res["paths"], gen_s=round(time.time() - t0, 2), fn={}, wall_s=round(time.time() - t0, 2))
+    except Exception as ex:
         import traceback
         return dict(qual=qual, shard=shard, error="CHECKER-ERROR " + repr(ex) + "\n" + traceback.format_exc()[-1500:], results=[], paths=0, checker_error=True)
 
@@ -155,33 +261,73 @@ def cross_check(ob, d):
 # --------------------------------------------------------------------------
 # main entry
 # --------------------------------------------------------------------------
-HEAVY = {"_Schedule.make_next_pulse_slot": 6, "_Schedule.add_target": 4, "_Schedule.add_pulse": 3,
-         "_Schedule._find_add_delay": 3, "_Schedule.add_delay": 2, "_Schedule.enable_eom": 3, "_Schedule.disable_eom": 2}
+HEAVY = {"Sequence._add": 14, "Sequence._validate_and_adjust_pulse": 4, "Sequence._delay": 4, "Sequence._target": 4, "Sequence._phase_shift": 2,
+         "_Schedule.make_next_pulse_slot": 6, "_Schedule.add_target": 4, "_Schedule.add_pulse": 3,
+         "_Schedule._find_add_delay": 3, "_Schedule.add_delay": 2, "_Schedule.enable_eom": 6, "_Schedule.disable_eom": 2}
 
 
 def run_property(prop, tier="quick", seed=0):
+    """phase 1: one generator process per function (parallel); phase 2: one pool of spawned solver processes for all obligations."""
+    import pickle
+    from concurrent.futures import ProcessPoolExecutor
     t_start = time.time()
     load_contracts()
-    from pyvc.contracts import REGISTRY, LEMMAS
-    from pyvc import findings
+    from pyvc.contracts import REGISTRY
     from props.table import PROPS
     spec = PROPS[prop]
     quals = [q for q, c in REGISTRY.items() if prop in c.props and not c.inline and not c.trusted]
     lem = [f"lemma:{n}" for n in spec.get("lemmas", [])]
-    timeout_ms = 10000 if tier == "quick" else 30000
-    tasks = []
-    for q in quals + lem:
-        k = HEAVY.get(q, 1)
-        for sh in range(k):
-            tasks.append((q, sh, k, prop, timeout_ms, tier))
-    tasks.sort(key=lambda t: -HEAVY.get(t[0], 1))
-    ctx = mp.get_context("fork")
-    with ctx.Pool(min(16, max(1, len(tasks)))) as pool:
-        results = pool.map(_work, tasks, chunksize=1)
-    return assemble(prop, tier, seed, spec, quals, lem, results, t_start)
+    tasks = sorted(quals + lem, key=lambda q: -HEAVY.get(q, 1))
+    os.makedirs(OUT, exist_ok=True)
+    # the bounded stand-in runs concurrently (it is re-run with the verifier's counter-models as hints only if an obligation fails)
+    import threading
+    early = {}
+    th = threading.Thread(target=lambda: early.update(r=run_standin(prop, tier, seed, hints=[])))
+    th.start()
+    procs = []
+    for n, q in enumerate(tasks):
+        gp = os.path.join(OUT, f"gen-{os.getpid()}-{n}.pkl")
+        ep = gp + ".err"
+        p = subprocess.Popen([sys.executable, "-m", "pyvc.driver", "--funcworker", q, prop, tier, "0", gp], stdout=subprocess.DEVNULL, stderr=open(ep, "w"),
+                             cwd=VERIF, env=dict(os.environ), stdin=subprocess.DEVNULL)
+        procs.append((p, q, gp, ep))
+        while sum(1 for x in procs if x[0].poll() is None) >= 16:
+            time.sleep(0.05)
+    gens = []
+    for p, q, gp, ep in procs:
+        p.wait()
+        try:
+            gens.append(pickle.load(open(gp, "rb")))
+        except Exception:
+            gens.append(dict(qual=q, error="CHECKER-ERROR generator produced no result: " + open(ep).read()[-800:], jobs=[], paths=0, checker_error=True))
+        for f_ in (gp, ep):
+            try:
+                os.remove(f_)
+            except OSError:
+                pass
+    gen_wall = time.time() - t_start
+    all_jobs = [j for g in gens for j in g.get("jobs", [])]
+    out = []
+    if all_jobs:
+        with ProcessPoolExecutor(max_workers=16, mp_context=mp.get_context("spawn")) as ex:
+            out = list(ex.map(_discharge_smt2, all_jobs, chunksize=max(1, min(8, len(all_jobs) // 64))))
+    by_q = {}
+    for job, rec in zip(all_jobs, out):
+        by_q.setdefault(job[8] or job[1].split("/")[0] + "/" + job[1].split("/")[1], []).append(rec)
+    results = []
+    for g in gens:
+        key = g["qual"] if not g["qual"].startswith("lemma:") else None
+        recs = by_q.get(g["qual"], []) if key else [r for job, r in zip(all_jobs, out) if job[1].startswith("lemma/" + g["qual"][6:])]
+        errs = [r for r in recs if r["verdict"] == "error"]
+        results.append(dict(qual=g["qual"], error=g.get("error") or (("CHECKER-ERROR " + errs[0]["error"]) if errs else None),
+                            results=[r for r in recs if r["verdict"] != "error"], paths=g.get("paths", 0), gen_s=g.get("gen_s"), fn=g.get("fn"),
+                            checker_error=g.get("checker_error") or bool(errs)))
+    spec = dict(spec, gen_wall_s=round(gen_wall, 1))
+    th.join()
+    return assemble(prop, tier, seed, spec, quals, lem, results, t_start, early.get("r"))
 
 
-def assemble(prop, tier, seed, spec, quals, lem, results, t_start):
+def assemble(prop, tier, seed, spec, quals, lem, results, t_start, early_standin=None):
     from pyvc.contracts import REGISTRY
     from pyvc import findings
     from contracts.lib import AXIOMS
@@ -202,7 +348,12 @@ def assemble(prop, tier, seed, spec, quals, lem, results, t_start):
         else:
             undecided.append(o)
     # bounded stand-in / replay harness on the real tree (also the source of concrete replays)
-    standin = run_standin(prop, tier, seed, hints=[o.get("model") for o in violations + undecided if o.get("model")])
+    hints = [o.get("model") for o in violations + undecided if o.get("model")]
+    standin = early_standin if (early_standin is not None and not hints and not (violations or undecided)) else None
+    if standin is None:
+        standin = run_standin(prop, tier, seed, hints=hints)
+        if early_standin and early_standin.get("failures"):
+            standin.setdefault("failures", []).extend(early_standin["failures"])
     kf_lines = findings.report_known(prop, known, standin)
     lines += kf_lines
     replay_path = None
@@ -309,6 +460,9 @@ def run_standin(prop, tier, seed, hints):
 
 
 def main(argv):
+    if argv and argv[0] == "--funcworker":
+        funcworker(argv[1], argv[2], argv[3], int(argv[4]), argv[5] if len(argv) > 5 else None)
+        return 0
     prop = argv[0]
     tier = os.environ.get("VERIF_TIER", "quick")
     if "--tier" in argv:
